@@ -850,6 +850,14 @@ static void gen_page(struct vf_rng *r, struct spage *s)
 	case R_DATA: gen_data_body(r, s); break;
 	default: break;
 	}
+	/* packets a normal page would carry, on a page of any other function (they share the assembly buffer) */
+	if (s->role != R_LOP && s->role != R_FILL && vf_chance(r, 1, 4)) {
+		switch (vf_below(r, 3)) {
+		case 0: gen_x27(r, mag); break;
+		case 1: gen_x26(r, mag, 1, 1); break;
+		default: gen_x28_m29(r, mag, 28, R_LOP); break;
+		}
+	}
 	if ((feat & F_M29) && vf_chance(r, 1, 6)) gen_x28_m29(r, mag, 29, R_LOP);
 	if ((feat & F_830) && vf_chance(r, 1, 5)) gen_830(r);
 }
